@@ -460,6 +460,7 @@ struct ClientRun
   std::string what;
   std::size_t fedAtEnd = 0;     // bytes delivered when the exchange ended (complete / throw / eof)
   bool forceEvict = false;
+  std::size_t bodySize = 0;     // size of the returned body (when complete)
   std::string canon;            // canonical rendering of the Response (when complete)
 };
 
@@ -525,6 +526,7 @@ inline ClientRun runClient(const std::string &method, const std::string &wire, c
     e.version = x.resp.httpVersion;
     for (auto &kv : x.resp.headers) e.fields.push_back(refhttp::Field{kv.first, kv.second});
     e.body = x.resp.body;
+    r.bodySize = x.resp.body.size();
     r.canon = e.canon(false);
   }
   return r;
